@@ -4,7 +4,12 @@
 // math/big binomial CDF (upper tail: every tail cell boundary down to 2^-250
 // against the exact tails with a relative tolerance, tail.go), and (b) every
 // single-field perturbation of honest
-// credentials over a fixed key x message x parameter grid.
+// credentials over a fixed key x message x parameter grid, (c) for every seat
+// index of a boundary alphabet a witness credential whose largest seat hash is
+// at that index, judged against a reference priority written from the
+// definition (priority.go), and (d) the algebraic forgery for every input of
+// the VRF challenge that can be solved for, plus replayed and degenerate
+// proofs (forgery.go).
 package c04
 
 import (
@@ -12,6 +17,7 @@ import (
 	"fmt"
 	"sort"
 	"sync"
+	"time"
 
 	"github.com/youchainhq/go-youchain/logging"
 
@@ -54,18 +60,28 @@ func Run(r *mc.Run) {
 	logging.Root().SetHandler(logging.DiscardHandler())
 	r.Level = "exploration"
 	if r.Quick() {
-		r.SetBudget(150e9)
+		r.SetBudget(210e9)
 	} else {
 		r.SetBudget(30 * 60e9)
 	}
-	r.Rule = "quantile: for every (stake, probability) pair of the grid, every quantile cell boundary F(j) of the exact binomial CDF (all j for stake <= 64, else all j with 1e-12 <= F(j) <= 1-1e-12) is turned into hashes floor((F(j) +- d)*2^256), d in {0, 1 ulp, 1e-9, 1e-6, and 4x the float tolerance where that exceeds 1e-10}, plus the hash extremes and the 0.99 branch switch; choose() must return a seat count admissible for the exact CDF, inside [0,stake], monotone in the hash; distinct = (stake, p, exact seat count, code branch).  upper tail (regime target > 0.99, every pair with p <= 1 and n*p*(1-p) <= 2.5e5): hashes 2^256-1-k for k in {0,1,2,3,2^8,2^32,2^64,2^128,2^192,2^200,2^202,2^203,2^210,2^220} and EVERY tail cell boundary: for every j with exact tail Pr(X>j) in [2^-250, 0.01] the hashes 2^256-1-floor(tail(j)*(1+-o)*2^256), o in {0, 1e-12, 1e-9, 1e-6} (relative offsets of the TAIL value, both sides) and the two hash neighbours of the boundary; there the seat count is judged in tail space against the exact 1024-bit tails with a RELATIVE tolerance: tail(j) <= inv*(1+delta) and tail(j-1) >= inv*(1-delta), inv = 1-hash/2^256 exact, delta = max(5e-10, 16*n*ln(n+1)*2^-53) (>= 4x the relative error of the float64 CDF of binomial(n,1-p) measured over all probed cells, recorded under upper_tail_float64_cdf_max_relative_error*).  binding: for every key x message x parameter triple an honest credential from VrfSortition, then every single-field perturbation (other key, each seed bit, index, step, each proof byte +-1, proof length, claimed seats, threshold/stake/total +-1, each priority byte +-1, every other seat count with its own priority) through VrfVerifySortition and VrfVerifyPriority; distinct = rejected perturbation cases.  message level: the same message-carried perturbations through Server.verifyPriority / Server.verifySortition (the functions production hands to the proposal and vote handlers) on a Server over a stub chain reader (one look-back header with the seed, one committed validator set of 8 chamber validators)"
+	r.Rule = "quantile: for every (stake, probability) pair of the grid, every quantile cell boundary F(j) of the exact binomial CDF (all j for stake <= 64, else all j with 1e-12 <= F(j) <= 1-1e-12) is turned into hashes floor((F(j) +- d)*2^256), d in {0, 1 ulp, 1e-9, 1e-6, and 4x the float tolerance where that exceeds 1e-10}, plus the hash extremes and the 0.99 branch switch; choose() must return a seat count admissible for the exact CDF, inside [0,stake], monotone in the hash; distinct = (stake, p, exact seat count, code branch).  upper tail (regime target > 0.99, every pair with p <= 1 and n*p*(1-p) <= 2.5e5): hashes 2^256-1-k for k in {0,1,2,3,2^8,2^32,2^64,2^128,2^192,2^200,2^202,2^203,2^210,2^220} and EVERY tail cell boundary: for every j with exact tail Pr(X>j) in [2^-250, 0.01] the hashes 2^256-1-floor(tail(j)*(1+-o)*2^256), o in {0, 1e-12, 1e-9, 1e-6} (relative offsets of the TAIL value, both sides) and the two hash neighbours of the boundary; there the seat count is judged in tail space against the exact 1024-bit tails with a RELATIVE tolerance: tail(j) <= inv*(1+delta) and tail(j-1) >= inv*(1-delta), inv = 1-hash/2^256 exact, delta = max(5e-10, 16*n*ln(n+1)*2^-53) (>= 4x the relative error of the float64 CDF of binomial(n,1-p) measured over all probed cells, recorded under upper_tail_float64_cdf_max_relative_error*).  binding: for every key x message x parameter triple an honest credential from VrfSortition, then every single-field perturbation (other key, each seed bit, index, step, each proof byte +-1, proof length, claimed seats, threshold/stake/total +-1, each priority byte +-1, every other seat count with its own priority) through VrfVerifySortition and VrfVerifyPriority; distinct = rejected perturbation cases.  message level: the same message-carried perturbations through Server.verifyPriority / Server.verifySortition (the functions production hands to the proposal and vote handlers) on a Server over a stub chain reader (one look-back header with the seed, one committed validator set of 8 chamber validators).  priority: for every seat index t of {0..1024, 256k (k<=16), 8192, 16384, 32768, 65280, 65535, 65536, 65537, 131072; thorough adds 8191, 8193, 65279, 65281, 65792, 131071, 131073, every 256k up to 131072 and 2^24-1, 2^24} the first VRF output of a fixed enumeration whose largest seat hash Keccak-256(output || minimal big-endian seat index) over 0..t is at t, then VrfComputePriority(output, j) for j = t (and j = t-1, t+1 when t > 1024 or the low byte of t is 0x00, 0x01 or 0xff) against the reference maximum; for every (committee/stake/total, t) of a table with stakes 255, 256, 257, 511, 512, 513, 600, 1024, 65535, 65536, 65537 (thorough: 131072) and t among 255, 256, 257, 511, 512, 513, 768, 1024, 65280, 65536 (thorough: also 32768, 65535, 65537, 131072; three keys per pair up to stake 1024) (committee = total stake, so every unit is a seat; also committee > total and two p < 1 triples) the first round index whose honest VRF output has its largest seat hash at t: the priority the honest prover emits must be that largest hash, VrfVerifyPriority must accept it and must reject the hash of every other seat index 0..j+2 (seat counts up to 600, thorough 1100; above: the boundary indexes 0..3, 254..258, 511..513, every 256k <= 4096, the second largest and its alias >>8, t-1, t+1, t>>8, t>>16, j-2..j+2; above 4096 seats: 0, 1, 255, 256, 65535, 65536, j-1, j, j+1, t>>8, t>>16, the second largest); the same through Server.verifyPriority on a validator set with stakes 255, 256, 257, 512, 513, 600, 768, 1024 and proposer committee = total stake; distinct = witness seat indexes and witness credentials.  forgery: for every key x message x input of the VRF challenge that can be solved for (VRF point, first commitment, second commitment, public key) x free point x scalar choice the proof that verifies if exactly that input were missing from the challenge (everything else fixed first, challenge derived, the unbound input solved from the verification equations), checked against the weakened reference verifier (must pass) and offered to ProofToHash (must reject, or return the honest output), to VrfVerifySortition / VrfVerifyPriority under every parameter triple with the seat counts the forged output would win, and to Server.verifyPriority / Server.verifySortition; control: the honest proof computed from the specified full transcript must be accepted with the honest output; honest proofs replayed for every other message; honest proofs with s or t replaced by 0, N-1, N, N+1, 2^256-1 (reject, never panic); distinct = rejected forgeries"
 	r.Assume("float64 by design: a seat count is admissible when it is the exact quantile of some t' with |t'-t| <= max(1e-12, 4*n*ln(n)*2^-53) (conditioning of the log-gamma based float64 CDF; 1e-12 up to stake ~400)")
 	r.Assume("upper tail (target > 0.99): the VRF output as a fraction is read both ways, output/2^256 (statement) and output/(2^256-1) (code: the all-ones output is exactly 1 and selects the whole stake); a seat count is admissible when it is the exact quantile, within the relative tail tolerance, under either reading; the readings differ by less than one unit of the 256-bit grid and give different seat counts only for the last few hashes below 2^256-1 (counted)")
 	r.Assume("the exact-tail oracle is restricted to n*p*(1-p) <= 2.5e5: beyond that the float64 CDF has no relative accuracy (known finding), only the absolute oracle applies there")
 	r.Assume("the priority is defined over the sub-user indices 0..j (j+1 hashes), as the implementation and every node compute it")
-	runQuantile(r)
-	runBinding(r)
-	runServer(r)
+	r.Assume("forgery: the generator and the hashed message point are not carried by a proof (constant / recomputed by the verifier from seed, step, round index), so no proof can be solved for them; their binding is probed by replaying honest proofs across messages and by the single-field perturbations of the binding part")
+	walls := map[string]float64{}
+	timed := func(name string, f func(*mc.Run)) {
+		t0 := time.Now()
+		f(r)
+		walls[name] = float64(time.Since(t0).Round(100*time.Millisecond)) / 1e9
+	}
+	timed("quantile", runQuantile)
+	timed("binding", runBinding)
+	timed("server", runServer)
+	timed("forgery", runForgery)
+	timed("priority", runPriority)
+	r.SetExtra("part_wall_seconds", walls)
 	flush(r)
 }
 
@@ -83,6 +99,10 @@ func Replay(r *mc.Run, v *mc.Violation) {
 		replayBinding(r, in)
 	case "server":
 		replayServer(r, in)
+	case "priority":
+		replayPriority(r, in)
+	case "forgery":
+		replayForgery(r, in)
 	}
 	flush(r)
 }
